@@ -69,6 +69,16 @@ def tables(prog, kind, tu, ck, report):
             try:
                 o = run_tree(fn, params, mem)
             except NotModelled as e:
+                msg = str(e)
+                gname = msg.split("global ")[-1] if "unmodelled global" in msg else None
+                g_ = fn.mod["gmap"].get(gname) if gname else None
+                if g_ is not None and not g_.get("constant"):
+                    # which handler runs (or what a registration leaves behind) depends on writable state other than the two registrations
+                    bad += 1
+                    report("C13:%s:%s:other-state:%s" % (kind, which, g_.get("srcname") or gname), "M-only-the-registrations-decide", "%s:%s" % (fn.file, g_.get("line") or fn.line),
+                           "%s reads the writable object %s%s: the handler that is invoked no longer depends on the registrations alone (process-wide state shared by all threads decides it)"
+                           % (fn.name, g_.get("srcname") or gname, "" if g_.get("tls") else " (not thread-local)"))
+                    return rows, bad, samples
                 ck.fail_broken("%s is outside the finite model: %s" % (fn.name, e)); return rows, bad, samples
             hcalls = [c for c in o.calls if is_handler_call(c[0])]
             problems = []
